@@ -103,19 +103,28 @@ func (r *RADVS) Stop() {
 }
 
 func (r *RADVS) SendRA() error {
-	return r.h.session.ICMP6SendRouterAdvertisement(r.Router.Prefixes, r.Router.RDNSS, packet.IP6AllNodesAddr)
+	// the router entry is shared with ProcessPacket, which updates it under the handler lock
+	h := r.h
+	h.Lock()
+	prefixes, rdnss := r.Router.Prefixes, r.Router.RDNSS
+	h.Unlock()
+	return h.session.ICMP6SendRouterAdvertisement(prefixes, rdnss, packet.IP6AllNodesAddr)
 }
 
 func (r *RADVS) sendAdvertistementLoop() {
-	r.h.session.ICMP6SendRouterAdvertisement(r.Router.Prefixes, r.Router.RDNSS, packet.IP6AllNodesAddr)
-	ticker := time.NewTicker(time.Duration(int64(time.Millisecond) * int64(r.Router.RetransTimer))).C
+	r.SendRA()
+	h := r.h
+	h.Lock()
+	retrans := r.Router.RetransTimer
+	h.Unlock()
+	ticker := time.NewTicker(time.Duration(int64(time.Millisecond) * int64(retrans))).C
 	for {
 		select {
 		case <-r.stopChannel:
 			return
 
 		case <-ticker:
-			if err := r.h.session.ICMP6SendRouterAdvertisement(r.Router.Prefixes, r.Router.RDNSS, packet.IP6AllNodesAddr); err != nil {
+			if err := r.SendRA(); err != nil {
 				fmt.Printf("icmp6 : error in send ra: %s", err)
 			}
 		}
